@@ -65,10 +65,14 @@ inline std::vector<double> genDyadic(vf::Ctx& c, size_t n, int k) {
 inline std::vector<double> genReals(vf::Ctx& c, size_t n, double lo, double hi) {
   std::vector<double> v(n); for (auto& x : v) x = c.real(lo, hi); return tight(v);
 }
-// weights >= 0 incl. zeros: small integers or reals in [0.01,10]
+// weights >= 0 incl. zeros: small integers, reals in [0.01,10], or eighths in [0,1]
 inline std::vector<double> genWeights(vf::Ctx& c, size_t n) {
-  std::vector<double> w(n); bool ints = !c.oneIn(3);
-  for (auto& x : w) { if (ints) x = static_cast<double>(c.irange(0, 4)); else x = c.oneIn(6) ? 0.0 : c.real(0.01, 10); }
+  std::vector<double> w(n); size_t kind = c.weighted({3, 1, 1});
+  for (auto& x : w) {
+    if (kind == 0) x = static_cast<double>(c.irange(0, 4));
+    else if (kind == 1) x = c.oneIn(6) ? 0.0 : c.real(0.01, 10);
+    else x = static_cast<double>(c.irange(0, 8)) / 8;
+  }
   return tight(w);
 }
 
